@@ -17,6 +17,16 @@ Primitives stay abstract: `self._cholesky_factor(E)` is a parameter `L` (contrac
 Cholesky path, skip_posterior_variances off; both the default (lazy) and the `settings.trace_mode` branch of the
 whitened covariance; the `torch.equal(x, Z)` shortcut and the training-mode
 prior cache are recorded separately.  Anything else raises `TranslateError` (a broken tie).
+
+Wave 3 additions:
+  * the TRAINING-mode branch of `UnwhitenedVariationalStrategy.forward` (`inv_quad_logdet(..., reduce_inv_quad=False)`,
+    `diagonal`, `clamp(0, inf)`, `DiagLinearOperator`) — vector-valued IR `diagv | invquad | clamp0 | diagm`;
+  * `BatchDecoupledVariationalStrategy.forward`: the stacked mean / variance sets, `select(mean_var_batch_dim - 2|1, k)`
+    pushed down to the leaves (`Kzx0`, `Kzx1`, ...), environment `EnvBD`;
+  * `OrthogonallyDecoupledVariationalStrategy.forward` / `.prior_distribution` / `.kl_divergence` (joint ordered `[x; Z]`,
+    blocks by `num_data`; eval prior with `jitter_val`, training-mode cached prior without), environment `EnvOrth`;
+  * `GridInterpolationVariationalStrategy.forward` / `.prior_distribution` (`left_interp(i, v, ·)` = `W ·`,
+    `InterpolatedLinearOperator(B, i, v, i, v)` = `W B Wᵀ`, literal prior jitter), environment `EnvGrid`.
 """
 import ast
 import os
@@ -46,6 +56,57 @@ def src(n):
     return ast.unparse(n)
 
 
+VEC_VARS = {"m", "mX", "mZ", "mX0", "mX1", "μx", "μz"}
+STACKED = {"Kzz", "Kzx", "Kxx", "mX", "mZ", "L"}          # quantities that carry the (mean set, variance set) dimension
+
+
+def is_vec(e):
+    """Is the IR term vector-valued (a mean / a diagonal) rather than matrix-valued?"""
+    if not isinstance(e, tuple) or not e:
+        return False
+    k = e[0]
+    if k == "var":
+        return e[1] in VEC_VARS
+    if k in ("diagv", "invquad", "clamp0"):
+        return True
+    if k in ("add", "sub"):
+        return is_vec(e[1]) and is_vec(e[2])
+    if k == "mul":
+        return is_vec(e[2])
+    if k == "smul":
+        return is_vec(e[2])
+    if k == "T":
+        return is_vec(e[1])
+    return False
+
+
+def push_sel(k, e):
+    """`e.select(stack dimension, k)`: the k-th inducing set (0 = mean, 1 = variance), pushed down to the leaves."""
+    t = e[0]
+    if t == "var":
+        return ("var", e[1] + str(k)) if e[1] in STACKED else e
+    if t in ("one", "eps", "const"):
+        return e
+    if t in ("add", "sub", "mul", "solve"):
+        return (t, push_sel(k, e[1]), push_sel(k, e[2]))
+    if t == "T":
+        return ("T", push_sel(k, e[1]))
+    if t == "smul":
+        return ("smul", e[1], push_sel(k, e[2]))
+    if t == "jit":
+        return ("jit", push_sel(k, e[1]), e[2])
+    raise TranslateError(f"select of a term outside the vocabulary: {e}")
+
+
+def stacked_leaves(e):
+    """Stacked quantities that were used WITHOUT selecting one of the two inducing sets."""
+    if not isinstance(e, tuple):
+        return []
+    if e and e[0] == "var":
+        return [e[1]] if e[1] in STACKED else []
+    return [x for sub in e[1:] for x in stacked_leaves(sub)]
+
+
 class Exec:
     """Symbolic executor for one method body."""
 
@@ -71,6 +132,11 @@ class Exec:
             return                                                   # docstring
         if isinstance(st, ast.Assign) and len(st.targets) == 1:
             t = st.targets[0]
+            if isinstance(t, ast.Name) and t.id == "mean_var_batch_dim":
+                if src(st.value) != "self.mean_var_batch_dim or -1":
+                    raise TranslateError(f"mean_var_batch_dim outside the vocabulary: {src(st)}")
+                self.env[t.id] = ("mvbd",)
+                return
             if isinstance(t, ast.Name):
                 self.env[t.id] = self.ev(st.value)
                 return
@@ -80,8 +146,17 @@ class Exec:
                     self.env[n_.id] = v
                 return
             if isinstance(t, ast.Tuple) and src(st.value).startswith("induc_induc_covar.inv_quad_logdet("):
-                for n_ in t.elts:
-                    self.env[n_.id] = ("opaque",)
+                # (inv_quad per column, logdet): `reduce_inv_quad=False` gives diag(Xᵀ A⁻¹ X) as a vector
+                c = st.value
+                kws = {k.arg: src(k.value) for k in c.keywords}
+                if len(t.elts) != 2 or len(c.args) != 1 or kws != {"logdet": "False", "reduce_inv_quad": "False"}:
+                    raise TranslateError(f"inv_quad_logdet outside the vocabulary: {src(c)}")
+                self.env[t.elts[0].id] = ("invquad", self.ev(c.func.value), self.ev(c.args[0]))
+                self.env[t.elts[1].id] = ("opaque",)
+                return
+            if isinstance(t, ast.Tuple) and src(st.value) == "self._compute_grid(x)" and len(t.elts) == 2:
+                self.env[t.elts[0].id] = ("interp", "idx")
+                self.env[t.elts[1].id] = ("interp", "val")
                 return
             if isinstance(t, ast.Attribute) and src(t) == "self._mean_cache":
                 return
@@ -114,8 +189,6 @@ class Exec:
         if isinstance(st, ast.Expr) and isinstance(st.value, ast.Call) and src(st.value.func) == "add_to_cache":
             a = st.value.args
             self.cache_writes[ast.literal_eval(a[1])] = self.ev(a[2])
-            if getattr(self, "stop_on_cache", False):
-                self.result = ("stopped",)       # the training-mode variance branch (diag / clamp) is not translated
             return
         if isinstance(st, ast.Expr) and isinstance(st.value, ast.Call) and isinstance(st.value.func, ast.Attribute) \
                 and isinstance(st.value.func.value, ast.Name) and self.env.get(st.value.func.value.id) == ("opaque",):
@@ -233,8 +306,21 @@ class Exec:
             return ("mvn", self.ev(args[0]), self.ev(args[1]))
         if fname in ("torch.zeros", "torch.ones_like", "torch.broadcast_shapes"):
             return ("ones",) if fname == "torch.ones_like" else ("opaque",)
-        if fname == "DiagLinearOperator" and len(args) == 1 and self.ev(args[0]) == ("ones",):
-            return ("one",)
+        if fname == "DiagLinearOperator" and len(args) == 1:
+            v = self.ev(args[0])
+            if v == ("ones",):
+                return ("one",)
+            if is_vec(v):
+                return ("diagm", v)
+            raise TranslateError(f"DiagLinearOperator of something that is not a vector: {s}")
+        if fname == "left_interp" and len(args) == 3:
+            if [self.ev(a) for a in args[:2]] != [("interp", "idx"), ("interp", "val")]:
+                raise TranslateError(f"left_interp with other indices / values than _compute_grid(x): {s}")
+            return ("mul", ("var", "W"), self.ev(args[2]))
+        if fname == "InterpolatedLinearOperator" and len(args) == 5:
+            if [self.ev(a) for a in args[1:]] != [("interp", "idx"), ("interp", "val")] * 2:
+                raise TranslateError(f"InterpolatedLinearOperator with other indices / values than _compute_grid(x): {s}")
+            return ("mul", ("mul", ("var", "W"), self.ev(args[0])), ("T", ("var", "W")))
         if fname == "ZeroLinearOperator":
             return ("opaque",)
         if isinstance(f, ast.Attribute):
@@ -265,6 +351,19 @@ class Exec:
                 raise TranslateError(f"mul by a non-constant: {s}")
             if meth == "matmul" and len(args) == 1:
                 return ("mul", recv, self.ev(args[0]))
+            if meth == "add" and len(args) == 1 and not n.keywords:
+                return ("add", recv, self.ev(args[0]))
+            if meth == "select" and len(args) == 2 and isinstance(args[1], ast.Constant) and args[1].value in (0, 1):
+                # the stacked (mean set, variance set) dimension: `mean_var_batch_dim - 2` for matrices, `- 1` for vectors
+                want = "mean_var_batch_dim - 1" if is_vec(recv) else "mean_var_batch_dim - 2"
+                if src(args[0]) != want or self.env.get("mean_var_batch_dim") != ("mvbd",):
+                    raise TranslateError(f"select on another dimension than the mean/variance stack: {s}")
+                return push_sel(args[1].value, recv)
+            if meth == "diagonal" and not args and {k.arg: src(k.value) for k in n.keywords} in (
+                    {"dim1": "-1", "dim2": "-2"}, {"dim1": "-2", "dim2": "-1"}):
+                return ("diagv", recv)
+            if meth == "clamp" and [src(a) for a in args] == ["0", "math.inf"] and not n.keywords:
+                return ("clamp0", recv)
             if meth == "solve" and len(args) in (1, 2):
                 rhs = self.ev(args[0])
                 base = ("solve", recv, rhs)
@@ -279,6 +378,87 @@ class Exec:
                     raise TranslateError(f"root_decomposition of something other than S: {s}")
                 return ("rootdec",)
         raise TranslateError(f"call outside the vocabulary: {s[:140]}")
+
+
+class OrthExec(Exec):
+    """`OrthogonallyDecoupledVariationalStrategy`: `self.model` is the base strategy; the joint is ordered `[x; Z]` and
+    split by `num_data`.  Variables: `μx, μz, Cxx, Cxz, Czz` (blocks of the base q(f) at `[x; Z_mean]`), `m`."""
+
+    def __init__(self, cls_prior=None, training=False):
+        super().__init__(cls_prior=cls_prior, has_covar=False, training=training)
+
+    def ev(self, n):
+        s = src(n)
+        if s == "self.variational_distribution.mean":
+            return ("var", "m")
+        if isinstance(n, ast.Subscript):
+            v = self.ev(n.value)
+            if v == ("fullcov",):
+                for k_, e in (("[..., :num_data, :num_data]", ("var", "Cxx")), ("[..., :num_data, num_data:]", ("var", "Cxz")),
+                              ("[..., num_data:, num_data:]", ("var", "Czz")),
+                              ("[..., num_data:, :num_data]", ("T", ("var", "Cxz")))):
+                    if s.endswith(k_):
+                        return e
+                raise TranslateError(f"block of the joint covariance not recognised: {s}")
+            if v == ("fullmean",):
+                if s.endswith("[..., :num_data]"):
+                    return ("var", "μx")
+                if s.endswith("[..., num_data:]"):
+                    return ("var", "μz")
+                raise TranslateError(f"block of the joint mean not recognised: {s}")
+        if isinstance(n, ast.Attribute) and not s.startswith("self."):
+            v = self.ev(n.value)
+            if v == ("fullZ",):
+                if n.attr == "mean":
+                    return ("var", "μz")
+                if n.attr == "lazy_covariance_matrix":
+                    return ("var", "Czz")
+        if isinstance(n, ast.BinOp) and isinstance(n.op, ast.Mult):
+            a, b = self.ev(n.left), self.ev(n.right)
+            if is_vec(a) and is_vec(b):
+                return ("hadv", a, b)
+            raise TranslateError(f"elementwise product outside the vocabulary: {s}")
+        return super().ev(n)
+
+    def call(self, n, s):
+        fname = src(n.func)
+        if fname == "self.model":
+            a = [src(x) for x in n.args]
+            if a == ["torch.cat([x, inducing_points], dim=-2)"] and [k.arg for k in n.keywords] in ([None], []):
+                return ("full",)
+            if a == ["self.inducing_points"] and not n.keywords:
+                return ("fullZ",)
+            raise TranslateError(f"call of the base strategy outside the vocabulary: {s}")
+        if fname == "self.model.kl_divergence" and not n.args:
+            return ("baseKL",)
+        if isinstance(n.func, ast.Attribute) and n.func.attr == "sum" and [src(x) for x in n.args] == ["-1"]:
+            v = self.ev(n.func.value)
+            if isinstance(v, tuple) and v[0] == "hadv":
+                return ("dot", v[1], v[2])
+            raise TranslateError(f"sum outside the vocabulary: {s}")
+        if isinstance(n.func, ast.Attribute) and n.func.attr == "mul" and len(n.args) == 1:
+            v = self.ev(n.func.value)
+            c = self.ev(n.args[0])
+            if isinstance(v, tuple) and v[0] in ("dot", "sadd", "smulS", "baseKL") and c[0] == "const":
+                return ("smulS", Fraction(c[1]), v)
+        return super().call(n, s)
+
+
+class GridExec(Exec):
+    """`GridInterpolationVariationalStrategy.forward`: `W` = the sparse interpolation matrix of `_compute_grid(x)`."""
+
+    def ev(self, n):
+        s = src(n)
+        if s == "self.variational_distribution":
+            return ("qdist",)
+        if isinstance(n, ast.Attribute) and not s.startswith("self."):
+            v = self.ev(n.value)
+            if v == ("qdist",):
+                if n.attr == "lazy_covariance_matrix":
+                    return ("var", "S")
+                if n.attr == "mean":
+                    return ("var", "m")
+        return super().ev(n)
 
 
 # -------------------------------------------------------------------- emission
@@ -301,12 +481,47 @@ def lean(e):
         return f"(addJitter ({lean(e[1])}) {jit_sym(e[2])})"
     if k == "solve":
         a = e[1]
-        if a == ("var", "L"):
-            return f"(e.Li.mul ({lean(e[2])}))"
+        if a[0] == "var" and a[1] in ("L", "L0", "L1"):
+            return f"(e.Li{a[1][1:]}.mul ({lean(e[2])}))"
         if a == ("mul", ("var", "L"), ("T", ("var", "L"))):
             return f"(e.Ki.mul ({lean(e[2])}))"
         raise TranslateError(f"solve with a matrix that is neither L nor L Lᵀ: {a}")
+    if k == "diagm":
+        return f"(DMat.diagonal {lean_vec(e[1])})"
     raise TranslateError(f"cannot emit {e}")
+
+
+def lean_vec(e):
+    """vector-valued terms (`Fin n → α`)"""
+    k = e[0]
+    if k == "diagv":
+        return f"(({lean(e[1])}).diag)"
+    if k == "invquad":
+        if e[1] != ("mul", ("var", "L"), ("T", ("var", "L"))):
+            raise TranslateError(f"inv_quad_logdet of a matrix that is not L Lᵀ: {e[1]}")
+        return f"(invQuadDiag e.Ki ({lean(e[2])}))"
+    if k == "sub":
+        return f"({lean_vec(e[1])} - {lean_vec(e[2])})"
+    if k == "add":
+        return f"({lean_vec(e[1])} + {lean_vec(e[2])})"
+    if k == "clamp0":
+        return f"(clamp0 {lean_vec(e[1])})"
+    raise TranslateError(f"cannot emit vector {e}")
+
+
+def lean_scalar(e):
+    """scalar-valued terms of `kl_divergence` (`baseKL` = the base strategy's KL, passed as a parameter)"""
+    k = e[0]
+    if k == "baseKL":
+        return "klBase"
+    if k == "dot":
+        return f"((({lean(e[1])}).transpose.mul ({lean(e[2])})).toMatrix 0 0)"
+    if k == "smulS":
+        c = e[1]
+        return f"((({c.numerator} : α) / {c.denominator}) * {lean_scalar(e[2])})"
+    if k in ("add", "sadd"):
+        return f"({lean_scalar(e[1])} + {lean_scalar(e[2])})"
+    raise TranslateError(f"cannot emit scalar {e}")
 
 
 def jit_sym(j):
@@ -379,12 +594,72 @@ def translate(repo):
         raise TranslateError("unwhitened forward: x == Z shortcut not found")
     out["uShortcutMean"], out["uShortcutCov"] = ex.shortcut[1], ex.shortcut[2]
     ext = Exec(has_covar=True, training=True)
-    ext.stop_on_cache = True
     ext.run(ufwd.body)
     cw = ext.cache_writes.get("prior_distribution_memo")
     if cw is None or cw[0] != "mvn":
         raise TranslateError("unwhitened forward (training): prior cache write not found")
     out["uTrainPriorMean"], out["uTrainPriorCov"] = cw[1], cw[2]
+    # the training-mode branch itself: mean and the (root + clamped diagonal) covariance
+    if ext.result is None or ext.result[0] != "mvn":
+        raise TranslateError("unwhitened forward (training): unexpected shape of the result")
+    out["uTrainMean"], out["uTrainCov"] = ext.result[1], ext.result[2]
+    # ---- batch decoupled (inherits prior_distribution = N(0, I) from VariationalStrategy)
+    bd = ast.parse(open(os.path.join(vdir, "batch_decoupled_variational_strategy.py")).read())
+    bcls = next((n_ for n_ in bd.body if isinstance(n_, ast.ClassDef) and n_.name == "BatchDecoupledVariationalStrategy"), None)
+    if bcls is None or [src(b) for b in bcls.bases] != ["VariationalStrategy"]:
+        raise TranslateError("BatchDecoupledVariationalStrategy does not derive from VariationalStrategy")
+    if any(isinstance(m_, ast.FunctionDef) and m_.name == "prior_distribution" for m_ in bcls.body):
+        raise TranslateError("BatchDecoupledVariationalStrategy overrides prior_distribution")
+    ex = Exec(cls_prior=wp[2], has_covar=True)
+    ex.run(_method(bd, "BatchDecoupledVariationalStrategy", "forward").body)
+    if ex.result is None or ex.result[0] != "mvn" or len(ex.chol_args) != 1:
+        raise TranslateError("BatchDecoupledVariationalStrategy.forward: unexpected shape of the result")
+    out["bdMean"], out["bdCov"] = ex.result[1], ex.result[2]
+    left = stacked_leaves(out["bdMean"]) + stacked_leaves(out["bdCov"])
+    if left:
+        raise TranslateError(f"batch decoupled: stacked quantities used without selecting an inducing set: {left}")
+    out["bdCholArg0"], out["bdCholArg1"] = push_sel(0, ex.chol_args[0]), push_sel(1, ex.chol_args[0])
+    # ---- orthogonally decoupled
+    ot = ast.parse(open(os.path.join(vdir, "orthogonally_decoupled_variational_strategy.py")).read())
+    ocls = "OrthogonallyDecoupledVariationalStrategy"
+    opx = OrthExec()
+    opx.run(_method(ot, ocls, "prior_distribution").body)
+    if opx.result is None or opx.result[0] != "mvn":
+        raise TranslateError(f"{ocls}.prior_distribution does not return a MultivariateNormal")
+    out["oPriorMean"], out["oPriorCov"] = opx.result[1], opx.result[2]
+    ofwd = _method(ot, ocls, "forward")
+    oe = OrthExec(cls_prior=opx.result[2], training=False)
+    oe.run(ofwd.body)
+    otr = OrthExec(cls_prior=opx.result[2], training=True)
+    otr.run(ofwd.body)
+    if oe.result is None or oe.result[0] != "mvn" or otr.result != oe.result:
+        raise TranslateError(f"{ocls}.forward: result missing or different between training and evaluation mode")
+    out["oMean"], out["oCov"] = oe.result[1], oe.result[2]
+    ocw = otr.cache_writes.get("prior_distribution_memo")
+    if ocw is None or ocw[0] != "mvn" or oe.cache_writes:
+        raise TranslateError(f"{ocls}.forward: training-mode prior cache write not found (or written in eval mode)")
+    out["oTrainPriorMean"], out["oTrainPriorCov"] = ocw[1], ocw[2]
+    okl = _method(ot, ocls, "kl_divergence")
+    for tag, prior in (("Eval", opx.result[2]), ("Train", ocw[2])):
+        ok_ = OrthExec(cls_prior=prior)
+        ok_.run(okl.body)
+        if ok_.result is None:
+            raise TranslateError(f"{ocls}.kl_divergence returns nothing")
+        out["oKL" + tag] = ok_.result
+        lean_scalar(ok_.result)            # must be a scalar term of the vocabulary
+    # ---- grid interpolation
+    gt = ast.parse(open(os.path.join(vdir, "grid_interpolation_variational_strategy.py")).read())
+    gcls = "GridInterpolationVariationalStrategy"
+    gp = _prior(gt, gcls)
+    out["gPriorMean"], out["gPriorCov"] = gp[1], gp[2]
+    if gp[2][0] != "jit" or gp[2][1] != ("var", "Kzz"):
+        raise TranslateError(f"grid prior covariance is not add_jitter(Kzz): {gp[2]}")
+    out["gPriorJitter"] = gp[2][2]
+    ge = GridExec(has_covar=True)
+    ge.run(_method(gt, gcls, "forward").body)
+    if ge.result is None or ge.result[0] != "mvn":
+        raise TranslateError(f"{gcls}.forward: unexpected shape of the result")
+    out["gMean"], out["gCov"] = ge.result[1], ge.result[2]
     # ---- KL
     kl = _method(bt, "_VariationalStrategy", "kl_divergence")
     calls = [c for c in ast.walk(kl) if isinstance(c, ast.Call) and src(c.func).endswith("kl_divergence")
@@ -457,6 +732,14 @@ variable {{α : Type}} [Field α] {{M n r : Nat}}
 {d('uPriorMean', 'mean of `prior_distribution` (uncached: eval mode / shortcut)', 'DMat M 1 α')}
 {d('uPriorCov', 'covariance of `prior_distribution` (uncached)', 'DMat M M α')}
 {d('uTrainPriorCov', 'covariance of the prior cached by the training-mode forward', 'DMat M M α')}
+/-- `predictive_mean` of the TRAINING-mode branch -/
+def uTrainMean (e : Env M n r α) : DMat n 1 α :=
+  {lean(t['uTrainMean'])}
+
+/-- `predictive_covar` of the TRAINING-mode branch: root term + `DiagLinearOperator((diag Kxx − inv_quad).clamp(0, ∞))` -/
+def uTrainCov [LinearOrder α] (e : Env M n r α) : DMat n n α :=
+  {lean(t['uTrainCov'])}
+
 /-- jitter `prior_distribution` adds to `Kzz` -/
 def uPriorJitter (e : Env M n r α) : α := {jit_sym(t['uPriorJitter'])}
 /-- jitter `forward` adds to `Kzz` -/
@@ -467,6 +750,116 @@ def uForwardJitter (e : Env M n r α) : α := {jit_sym(t['uForwardJitter'])}
 /-- `torch.distributions.kl.kl_divergence(<first>, <second>)` with `q = self.variational_distribution`,
 `p = self.prior_distribution` -/
 def klDivergence {{β γ : Type}} (KL : β → β → γ) (q p : β) : γ := KL {t['klArgs'][0]} {t['klArgs'][1]}
+
+/-! ### BatchDecoupledVariationalStrategy.forward -/
+
+/-- Both inducing sets of the stacked dimension (`0` = mean set, `1` = variance set): blocks of the two joint priors, the
+two Cholesky factors (`L0 L0ᵀ = bdCholArg0`, …) and their inverses, the shared variational parameters. -/
+structure EnvBD (M n : Nat) (α : Type) where
+  Kzz0 : DMat M M α
+  Kzz1 : DMat M M α
+  Kzx0 : DMat M n α
+  Kzx1 : DMat M n α
+  Kxx0 : DMat n n α
+  Kxx1 : DMat n n α
+  mX0 : DMat n 1 α
+  mX1 : DMat n 1 α
+  L0 : DMat M M α
+  L1 : DMat M M α
+  Li0 : DMat M M α
+  Li1 : DMat M M α
+  m : DMat M 1 α
+  S : DMat M M α
+  ε : α
+
+/-- slice `0` of the argument of `self._cholesky_factor` -/
+def bdCholArg0 (e : EnvBD M n α) : DMat M M α :=
+  {lean(t['bdCholArg0'])}
+
+/-- slice `1` of the argument of `self._cholesky_factor` -/
+def bdCholArg1 (e : EnvBD M n α) : DMat M M α :=
+  {lean(t['bdCholArg1'])}
+
+/-- `predictive_mean` -/
+def bdMean (e : EnvBD M n α) : DMat n 1 α :=
+  {lean(t['bdMean'])}
+
+/-- `predictive_covar` -/
+def bdCov (e : EnvBD M n α) : DMat n n α :=
+  {lean(t['bdCov'])}
+
+/-! ### OrthogonallyDecoupledVariationalStrategy -/
+
+/-- The base strategy's `q(f)` at `[x; Z_mean]` (mean `(μx, μz)`, covariance blocks `Cxx, Cxz, Czz`), the point mass `m`,
+`ε = self.jitter_val`. -/
+structure EnvOrth (M n : Nat) (α : Type) where
+  μx : DMat n 1 α
+  μz : DMat M 1 α
+  Cxx : DMat n n α
+  Cxz : DMat n M α
+  Czz : DMat M M α
+  m : DMat M 1 α
+  ε : α
+
+/-- `predictive_mean` -/
+def oMean (e : EnvOrth M n α) : DMat n 1 α :=
+  {lean(t['oMean'])}
+
+/-- `predictive_covar` -/
+def oCov (e : EnvOrth M n α) : DMat n n α :=
+  {lean(t['oCov'])}
+
+/-- mean of `prior_distribution` (evaluation mode) -/
+def oPriorMean (e : EnvOrth M n α) : DMat M 1 α :=
+  {lean(t['oPriorMean'])}
+
+/-- covariance of `prior_distribution` (evaluation mode) -/
+def oPriorCov (e : EnvOrth M n α) : DMat M M α :=
+  {lean(t['oPriorCov'])}
+
+/-- covariance of the prior cached by the training-mode forward -/
+def oTrainPriorCov (e : EnvOrth M n α) : DMat M M α :=
+  {lean(t['oTrainPriorCov'])}
+
+/-- `kl_divergence()` in evaluation mode (`klBase = self.model.kl_divergence()`) -/
+def oKLEval (e : EnvOrth M n α) (klBase : α) : α :=
+  {lean_scalar(t['oKLEval'])}
+
+/-- `kl_divergence()` after a training-mode forward (cached prior) -/
+def oKLTrain (e : EnvOrth M n α) (klBase : α) : α :=
+  {lean_scalar(t['oKLTrain'])}
+
+/-! ### GridInterpolationVariationalStrategy -/
+
+/-- `W` = the interpolation matrix of `_compute_grid(x)`; `(m, S)` = q(u); `Kzz, mZ` = the prior at the grid;
+`ε = self.jitter_val`, `εd` = the default of `add_jitter()` (the source uses a literal instead). -/
+structure EnvGrid (M n : Nat) (α : Type) where
+  W : DMat n M α
+  m : DMat M 1 α
+  S : DMat M M α
+  Kzz : DMat M M α
+  mZ : DMat M 1 α
+  ε : α
+  εd : α
+
+/-- `predictive_mean` -/
+def gMean (e : EnvGrid M n α) : DMat n 1 α :=
+  {lean(t['gMean'])}
+
+/-- `predictive_covar` -/
+def gCov (e : EnvGrid M n α) : DMat n n α :=
+  {lean(t['gCov'])}
+
+/-- mean of `prior_distribution` -/
+def gPriorMean (e : EnvGrid M n α) : DMat M 1 α :=
+  {lean(t['gPriorMean'])}
+
+/-- covariance of `prior_distribution` -/
+def gPriorCov (e : EnvGrid M n α) : DMat M M α :=
+  {lean(t['gPriorCov'])}
+
+/-- jitter `prior_distribution` adds to `Kzz` (a literal of the source) -/
+def gPriorJitter (e : EnvGrid M n α) : α := {jit_sym(t['gPriorJitter'])}
 
 end Gen.VariationalAlgebra
 """
@@ -512,5 +905,4 @@ if __name__ == "__main__":
     out = os.path.join(os.path.dirname(os.path.dirname(os.path.dirname(os.path.abspath(__file__)))),
                        "lean", "GPVerif", "Gen", "VariationalAlgebra.lean")
     t, changed = generate(repo, out)
-    print({k: (lean(v) if isinstance(v, tuple) and v[0] not in ("eps", "const") else v) for k, v in t.items()},
-          "changed" if changed else "unchanged", file=sys.stderr)
+    print(sorted(t), "changed" if changed else "unchanged", file=sys.stderr)
